@@ -17,6 +17,7 @@ import (
 type Script struct {
 	ID       string  `json:"id"`
 	Mode     string  `json:"mode"` // free: flusher runs freely; steer: flusher stages released by "fl" steps
+	Impl     bool    `json:"impl"` // also record the implementation-level stream for TraceStore.tla
 	Seed     int64   `json:"seed"`
 	Cfg      CfgJSON `json:"cfg"`
 	Alphabet string  `json:"alphabet"`
@@ -48,6 +49,7 @@ type ScriptResult struct {
 	Abandons  int            `json:"abandons"`
 	Misuse    int            `json:"misuse"`
 	Readers   int            `json:"readers"`
+	Impl      []ImplEvent    `json:"-"`
 	Diverged  int            `json:"diverged"`
 	ImplTrace []string       `json:"-"`
 }
@@ -155,6 +157,7 @@ func genScript(r *rand.Rand, id string, nops int, profile string) Script {
 		s.Steps = append(s.Steps, Step{Op: "read"})
 		rsteps()
 	}
+	s.Impl = s.Mode == "steer" && (profile == "c01" || profile == "c05")
 	s.Steps = append(s.Steps, Step{Op: "idle"}, Step{Op: "read"})
 	rsteps()
 	for w := range open {
@@ -425,11 +428,80 @@ func (r *runner) step(step Step) error {
 
 // runScript executes a script against the real engine in a fresh directory and returns the
 // recorded API trace.
+// ImplEvent: vocabulary of specs/TraceStore.tla
+type ImplEvent struct {
+	Ev string `json:"ev"`
+	W  int    `json:"w"`
+	K  int    `json:"k"`
+	V  int    `json:"v"`
+	N  int    `json:"n"`
+}
+
+// implStream turns the merged hook + API stream of a steered run into TraceStore events.
+func implStream(evs []gate.Event) []ImplEvent {
+	var out []ImplEvent
+	num := func(x any) int {
+		switch v := x.(type) {
+		case int:
+			return v
+		case uint64:
+			return int(v)
+		case int64:
+			return int(v)
+		}
+		return 0
+	}
+	for _, e := range evs {
+		switch e.Point {
+		case "api":
+			a := e.Args[0].(rec.Event)
+			switch a.Ev {
+			case "BeginResp":
+				out = append(out, ImplEvent{Ev: "begin", W: a.W})
+			case "Put":
+				if a.Res == "ok" && a.K > 0 {
+					out = append(out, ImplEvent{Ev: "put", W: a.W, K: a.K, V: a.V})
+				}
+			case "Get":
+				out = append(out, ImplEvent{Ev: "get", W: a.W, K: a.K, V: a.V})
+			case "Discard", "CommitResp":
+				out = append(out, ImplEvent{Ev: "drop", W: a.W})
+			}
+		case "cm.applied":
+			out = append(out, ImplEvent{Ev: "applied", N: num(e.Args[0])})
+		case "cm.rotated":
+			out = append(out, ImplEvent{Ev: "rotated", N: num(e.Args[0])})
+		case "cm.enq":
+			out = append(out, ImplEvent{Ev: "enq", N: num(e.Args[0])})
+		case "cm.done":
+			out = append(out, ImplEvent{Ev: "done"})
+		case "fl.take":
+			out = append(out, ImplEvent{Ev: "take", N: num(e.Args[0])})
+		case "fl.flushed":
+			out = append(out, ImplEvent{Ev: "flushed"})
+		case "lm.discard":
+			out = append(out, ImplEvent{Ev: "discard", N: num(e.Args[0])})
+		case "fl.compacted":
+			out = append(out, ImplEvent{Ev: "compacted"})
+		case "fl.removed.locked":
+			out = append(out, ImplEvent{Ev: "removed", N: num(e.Args[0])})
+		}
+	}
+	return out
+}
+
 func runScript(s Script, ctl *gate.Ctl) (tr *rec.Trace, res ScriptResult) {
 	res.ID = s.ID
 	dir := scratch("seq")
 	defer os.RemoveAll(dir)
 	tr = &rec.Trace{}
+	implOn := ctl != nil && s.Mode == "steer" && s.Impl
+	if implOn {
+		ctl.ResetEvents()
+		ctl.Record = true
+		tr.Mirror = func(e rec.Event) { ctl.Note("api", e) }
+		defer func() { ctl.Record = false }()
+	}
 	r := &runner{s: s, ctl: ctl, dir: dir, tr: tr, km: kvmap.New(s.Alphabet, s.NKeys), cfg: s.Cfg, res: &res}
 	if ctl == nil {
 		r.s.Mode = "free"
@@ -445,6 +517,12 @@ func runScript(s Script, ctl *gate.Ctl) (tr *rec.Trace, res ScriptResult) {
 			res.Err = err.Error()
 			return
 		}
+	}
+	if implOn {
+		// the comparison ends before the final drain and Close (Close has its own hand-off path)
+		tr.Mirror = nil
+		ctl.Record = false
+		res.Impl = implStream(ctl.Events())
 	}
 	r.drain()
 	r.st.Close()
